@@ -8,8 +8,9 @@ from harness.core import enc_str, dec_str
 PROPERTY = "C12"
 READY = True
 THEOREMS = [
-    "C12.marks", "C12.resize_exact", "C12.fit_exact", "C12.width_bounds", "C12.rectangular", "C12.separators",
+    "C12.marks", "C12.resize_exact", "C12.fit_exact", "C12.blanks_are_blanks", "C12.width_bounds", "C12.rectangular", "C12.separators",
     "C12.cell_content", "C12.cell_default", "C12.full_when_fits", "C12.title_content", "C12.limits",
+    "C12.print_twice", "C12.interleaved", "C12.fmt_obj_same", "C12.ctor_options", "C12.widths_faithful",
 ]
 
 
@@ -230,7 +231,11 @@ def translate(repo):
         "/-- code points `c` with `chr(c).isspace()` in the running Python (what `str.strip()` and `int()` skip) -/",
         "def spaceCodes : List Nat := [%s]" % ", ".join(str(c) for c in k["spaceCodes"]),
         "end Gen.C12", ""]
-    return {"AkVerif/Gen/C12.lean": "\n".join(body)}
+    files = {"AkVerif/Gen/C12.lean": "\n".join(body)}
+    # the chunk operations are those of the CHText model (C08), which needs its own constants
+    from harness import c08
+    files.update(c08.translate(repo))
+    return files
 
 
 # ------------------------------------------------------------------ table descriptions and the wire
@@ -427,6 +432,91 @@ def show_chunks(chunks):
     return " ".join([str(len(chunks))] + [enc_str(c.text) for c in chunks])
 
 
+def split_at(toks):
+    groups = [[]]
+    for t in toks:
+        if t == "@":
+            groups.append([])
+        else:
+            groups[-1].append(t)
+    return groups
+
+
+def enc_rest(d):
+    """records, limits, header, footer, skip of a table built from a format object"""
+    out = ["R", str(len(d["records"]))]
+    for r in d["records"]:
+        out.append(str(len(r)))
+        out += [enc_val(v) for v in r]
+    lim = d.get("limits")
+    out += ["L-"] if lim is None else ["L"] + ["n" if x is None else str(x) for x in lim]
+    out += [_opt(d.get("header")), _opt(d.get("footer"))]
+    out += ["K-"] if d.get("skip") is None else ["K", str(len(d["skip"]))] + [enc_str(x) for x in d["skip"]]
+    return " ".join(out)
+
+
+def dec_rest(toks):
+    p = _Toks(toks)
+    if p.tok() != "R":
+        raise ValueError("R")
+    records = [tuple(dec_val(p.tok()) for _ in range(int(p.tok()))) for _ in range(int(p.tok()))]
+    kw = {}
+    if p.tok() == "L":
+        kw["limits"] = tuple(None if x == "n" else int(x) for x in (p.tok(), p.tok()))
+    kw["header"] = p.opt()
+    kw["footer"] = p.opt()
+    if p.tok() == "K":
+        kw["skip_columns"] = [dec_str(p.tok()) for _ in range(int(p.tok()))]
+    if p.i != len(toks):
+        raise ValueError("trailing tokens")
+    return records, kw
+
+
+def build_from_fmt_obj(pf, via, toks):
+    """PPTable(records, fmt_obj=<the format of another table | a PPTableFormat made directly>, ...)"""
+    from ak.ppobj import PPTable, PPTableFormat
+    donor, second = split_at(toks)
+    records2, kw2 = dec_rest(second)
+    if via == "1":
+        records, kw = decode(donor)
+        fobj = PPTableFormat.make(kw.get("fmt"), kw.get("fields"), kw.get("fields_types"), kw.get("fields_titles"),
+                                  records[0] if records else None)
+    else:
+        t = build_table(donor)
+        if pf == "1":
+            render_lines(t)
+        fobj = t.fmt
+    return PPTable(records2, fmt_obj=fobj, **kw2)
+
+
+def _line_text(l):
+    return l.plain_text() if hasattr(l, "plain_text") else "".join(c.text for c in l)
+
+
+def run_interleaved(toks):
+    """several line iterators over several tables, advanced as the schedule says, then drained in order"""
+    groups = split_at(toks)
+    specs, its, sched = groups[:-2], [int(x) for x in groups[-2]], [int(x) for x in groups[-1]]
+    tables = [build_table(sp) for sp in specs]
+    iters = [iter(tables[i].ch_text(no_color=True)) for i in its]
+    got = [[] for _ in its]
+    done = [False] * len(its)
+
+    def advance(i):
+        if not done[i]:
+            try:
+                got[i].append(_line_text(next(iters[i])))
+            except StopIteration:
+                done[i] = True
+    for i in sched:
+        if i < len(its):
+            advance(i)
+    for i in range(len(its)):
+        while not done[i]:
+            advance(i)
+    return "ok " + " ".join([str(len(its))] + [show_lines(g) for g in got])
+
+
 def impl(case):
     from ak.color import CHText
     from ak.ppobj import FieldType
@@ -436,6 +526,10 @@ def impl(case):
         try:
             if op == "tbl":
                 out.append("ok " + show_lines(render_lines(build_table(args))))
+            elif op == "obj":
+                out.append("ok " + show_lines(render_lines(build_from_fmt_obj(args[0], args[1], args[2:]))))
+            elif op == "ilv":
+                out.append(run_interleaved(args))
             elif op == "fit":
                 chunks, cp = _fit_args(args[2:])
                 out.append("ok " + show_chunks(FieldType.fit_to_width(chunks, int(args[0]), int(args[1]), cp)))
@@ -451,7 +545,7 @@ def impl(case):
 
 def observable(i, line):
     # `fit` / `resize` lines exercise internal helpers directly: diagnostics only
-    return line.startswith("tbl ")
+    return line.split(" ", 1)[0] in ("tbl", "obj", "ilv")
 
 
 # ------------------------------------------------------------------ oracle: the property itself
@@ -484,23 +578,24 @@ def spec_cell_options(field, mod, v):
     e = field.get("enum")
     if e is None:
         return [(str(v), _is_right(v))]
-    name = None
-    for k, nm in e["keys"]:
-        if k == v and type(k) is type(v):
-            name = nm
-    known = name is not None
-    if not known:
-        if v is None:
-            return [(str(v), True)]
-        name = e["missing"] if e.get("missing") is not None else "<???>"
-    if mod == "val":
-        return [(str(v), _is_right(v))]
-    if mod == "name":
-        return [(name, _is_right(v))]
-    # full: "<value> <name>", the value right-aligned in a common width (any amount of padding up to the
-    # widest value the enum knows of is accepted: the statement does not say how wide that is)
-    widest = max([len(str(k)) for k, _ in e["keys"]] + [len(str(v)), 40 if e.get("missing") is not None else 1])
-    return [(" " * p + str(v) + " " + name, False) for p in range(0, widest + 1)]
+    if v is None and not any(k is None for k, _ in e["keys"]):
+        return [(str(v), True)]
+    missing = e["missing"] if e.get("missing") is not None else "<???>"
+    # the name of the value: the key equal to it (a dict lookup: 1, True and 1.0 are the same key; the statement
+    # does not say whether such a value counts as known, so both readings are accepted)
+    names = [nm for k, nm in e["keys"] if k == v and type(k) is type(v)]
+    if not names:
+        names = [nm for k, nm in e["keys"] if k is not None and v is not None and k == v] + [missing]
+    out = []
+    for name in names:
+        if mod == "val":
+            out.append((str(v), _is_right(v)))
+        elif mod == "name":
+            out.append((name, _is_right(v)))
+        else:
+            widest = max([len(str(k)) for k, _ in e["keys"]] + [len(str(v)), 40 if e.get("missing") is not None else 1])
+            out += [(" " * p + str(v) + " " + name, False) for p in range(0, widest + 1)]
+    return out
 
 
 def _fields(desc):
@@ -635,7 +730,30 @@ def oracle(case, replies):
     desc = case.get("desc")
     for line, rep in zip(case["lines"], replies):
         op, *args = line.split()
-        if op == "tbl":
+        if op == "obj":
+            # a table built from a format object: the columns of the donor, its limits unless given anew
+            d2 = case.get("desc2")
+            if d2 is None or not d2.get("valid"):
+                continue
+            msg = oracle_table(d2, rep)
+            if msg:
+                return "fmt_obj-" + msg
+        elif op == "ilv":
+            descs = case.get("descs")
+            if descs is None or not all(d.get("valid") for d in descs):
+                continue
+            if not rep.startswith("ok "):
+                return "interleaved-rejected: %s" % rep
+            toks = rep.split()
+            k, pos = int(toks[1]), 2
+            for it in range(k):
+                n = int(toks[pos])
+                one = "ok " + " ".join(toks[pos:pos + n + 1])
+                pos += n + 1
+                msg = oracle_table(descs[case["iters"][it]], one)
+                if msg:
+                    return "interleaved-" + msg + " (iterator %d of table %d)" % (it, case["iters"][it])
+        elif op == "tbl":
             if desc is None or not desc.get("valid"):
                 # malformed stream: whatever is printed must still be rectangular
                 if rep.startswith("ok "):
@@ -710,9 +828,16 @@ def gen_enum(rng):
     return {"keys": keys, "missing": missing}
 
 
+# values equal to a key or to each other but printed differently (1 / True / 1.0 / 7 / 7.0) in enum columns: every
+# row must show its own value (known finding "enum cell caches keyed by equality", fixed by 0b2b8bb)
+ENUM_EQUAL_VALUES = True
+
+
 def gen_enum_value(rng, e):
     ks = [k for k, _ in e["keys"]]
     r = rng.random()
+    if ENUM_EQUAL_VALUES and r < 0.25:
+        return rng.choice([True, False, 1, 0, 1.0, 0.0, 7, 7.0, 2.0, 2, 10.0, 999.0])
     if ks and r < 0.6:
         return rng.choice(ks)
     if r < 0.75:
@@ -896,6 +1021,103 @@ def _case(desc, kind):
     return {"lines": ["tbl " + encode(desc)], "desc": desc, "meta": {"kind": kind}}
 
 
+def gen_records_like(rng, desc, n):
+    """other records for the fields of `desc`"""
+    recs, prev = [], None
+    for _ in range(n):
+        r = []
+        for i, f in enumerate(desc["fields"]):
+            if prev is not None and rng.random() < 0.4:
+                r.append(prev[i])
+            elif f["enum"] is not None:
+                r.append(gen_enum_value(rng, f["enum"]))
+            else:
+                r.append(gen_value(rng))
+        recs.append(r)
+        prev = r
+    return recs
+
+
+def mk_obj_case(rng, donor, pf, via, second, kind="fmt_obj"):
+    """case for `PPTable(records, fmt_obj=...)`; the oracle's description of the new table is derived from the
+    donor's: same fields and columns, the donor's limits unless new ones are given"""
+    d2 = {"valid": bool(donor.get("valid")), "fields": donor["fields"], "cols": donor.get("cols"),
+          "records": second["records"], "header": second.get("header"), "footer": second.get("footer"),
+          "fmt_limits": None}
+    dl = (None, None)
+    if donor.get("fmt_limits") not in (None, "*"):
+        dl = tuple(donor["fmt_limits"])
+    if via == 0 and donor.get("limits") is not None:
+        dl = tuple(donor["limits"])
+    d2["limits"] = list(second["limits"]) if second.get("limits") is not None else list(dl)
+    skip = list(second.get("skip") or []) + (list(donor.get("skip") or []) if via == 0 else [])
+    d2["skip"] = skip or None
+    line = "obj %d %d %s @ %s" % (pf, via, encode(donor), enc_rest(second))
+    return {"lines": [line], "desc2": d2, "donor": donor, "second": second, "pf": pf, "via": via,
+            "meta": {"kind": kind}}
+
+
+def gen_obj_case(rng):
+    donor = gen_desc(rng)
+    if rng.random() < 0.7:       # asymmetric limits in the format object, the point of this route
+        a, b = rng.sample(range(0, 5), 2)
+        if rng.random() < 0.6:
+            donor["fmt_limits"], donor["limits"] = [a, b], None
+            donor["fmt"] = fmt_str(rng, donor["cols"], [a, b]) if donor["cols"] is not None else "*;%d:%d" % (a, b)
+        else:
+            donor["limits"] = [a, b]
+    via = 1 if rng.random() < 0.3 else 0
+    if via == 1:
+        donor["skip"] = None     # PPTableFormat.make knows nothing of limits= / skip_columns=
+        donor["limits"] = None
+    second = {"records": gen_records_like(rng, donor, rng.choice([0, 1, 3, 5, 6, 8, 9, 12])),
+              "limits": rng.choice([None, None, None, None, [rng.randint(0, 4), rng.randint(0, 4)], [None, None]]),
+              "header": rng.choice([None, "H2"]), "footer": rng.choice([None, None, "", "F2"]), "skip": None}
+    return mk_obj_case(rng, donor, 1 if rng.random() < 0.5 else 0, via, second)
+
+
+def mk_ilv_case(descs, iters, sched, kind="interleaved"):
+    line = "ilv " + " @ ".join(encode(d) for d in descs) + " @ " + " ".join(map(str, iters)) + " @ " + \
+        " ".join(map(str, sched))
+    return {"lines": [line], "descs": descs, "iters": iters, "sched": sched, "meta": {"kind": kind}}
+
+
+def gen_ilv_case(rng):
+    """2-3 tables (mostly with break-by columns and limits that apply, different widths), 2-4 line iterators over
+    them (also two over the same table), advanced in a random interleaving"""
+    descs = []
+    for _ in range(rng.choice([1, 2, 2, 2, 3])):
+        d = gen_desc(rng)
+        if rng.random() < 0.8 and d["cols"] is not None:
+            a, b = rng.randint(0, 3), rng.randint(0, 3)
+            d["fmt_limits"], d["limits"] = [a, b], None
+            rng.choice(d["cols"])["brk"] = True
+            d["fmt"] = fmt_str(rng, d["cols"], [a, b])
+            if len(d["records"]) < 6:
+                d["records"] = gen_records_like(rng, d, rng.choice([6, 8, 12]))
+        descs.append(d)
+    iters = [rng.randrange(len(descs)) for _ in range(rng.choice([2, 2, 3, 4]))]
+    if len(descs) > 1 and len(set(iters)) == 1:
+        iters[-1] = (iters[0] + 1) % len(descs)
+    steps = rng.randint(0, 40)
+    sched = [rng.randrange(len(iters)) for _ in range(steps)] if rng.random() < 0.7 else \
+        [i for _ in range(20) for i in range(len(iters))]      # zip(...)
+    return mk_ilv_case(descs, iters, sched)
+
+
+def corpus():
+    # witness of the fixed defect 0b2b8bb: enum caches keyed by equality made rows with 1 / 1.0 show 'True' and the
+    # row with 7 show '7.0'
+    enum = {"keys": [[1, "one"], [2, "two"]], "missing": None}
+    desc = {"valid": True, "fields": [{"name": "a", "enum": enum, "title": None}, {"name": "b", "enum": None, "title": None}],
+            "records": [[True, "x"], [1, "y"], [1.0, "z"], [7.0, "q"], [7, "w"]],
+            "cols": [{"f": "a", "mod": "val", "brk": False, "w": None}, {"f": "a", "mod": "full", "brk": False, "w": None},
+                     {"f": "a", "mod": "name", "brk": False, "w": None}, {"f": "b", "mod": None, "brk": False, "w": None}],
+            "fmt_limits": None, "limits": None, "header": None, "footer": None, "skip": None,
+            "fmt": "a/val,a/full,a/name,b"}
+    yield _case(desc, "corpus-enum-equal-values")
+
+
 def gen_cases(rng, tier):
     quick = tier == "quick"
     n = 2600 if quick else 60000
@@ -905,6 +1127,10 @@ def gen_cases(rng, tier):
         yield _case(gen_fieldless(rng), "fieldless")
     for _ in range(500 if quick else 12000):
         yield _case(gen_malformed(rng), "malformed")
+    for _ in range(500 if quick else 10000):
+        yield gen_obj_case(rng)
+    for _ in range(400 if quick else 8000):
+        yield gen_ilv_case(rng)
     # helpers, directly
     for _ in range(600 if quick else 20000):
         chunks = [gen_text(rng, 6) for _ in range(rng.randint(0, 4))]
@@ -949,7 +1175,50 @@ def search_cases(rng, tier):
                        "meta": {"kind": "search-fit"}}
 
 
+def _shrink_obj(case):
+    import copy
+    donor, second = case["donor"], case["second"]
+    rng = random.Random(0)
+    for i in range(len(second["records"])):
+        s2 = copy.deepcopy(second)
+        del s2["records"][i]
+        yield mk_obj_case(rng, donor, case["pf"], case["via"], s2)
+    for small in shrink({"lines": ["tbl " + encode(donor)], "desc": donor, "meta": {}}):
+        yield mk_obj_case(rng, small["desc"], case["pf"], case["via"], second)
+    if case["pf"]:
+        yield mk_obj_case(rng, donor, 0, case["via"], second)
+    for key in ("header", "footer", "limits"):
+        if second.get(key) is not None:
+            s2 = copy.deepcopy(second)
+            s2[key] = None
+            yield mk_obj_case(rng, donor, case["pf"], case["via"], s2)
+
+
+def _shrink_ilv(case):
+    descs, iters, sched = case["descs"], case["iters"], case["sched"]
+    if len(sched) > 1:
+        yield mk_ilv_case(descs, iters, sched[:len(sched) // 2])
+        yield mk_ilv_case(descs, iters, sched[len(sched) // 2:])
+    for i in range(len(sched)):
+        yield mk_ilv_case(descs, iters, sched[:i] + sched[i + 1:])
+    if len(iters) > 1:
+        for i in range(len(iters)):
+            its = iters[:i] + iters[i + 1:]
+            yield mk_ilv_case(descs, its, [x if x < i else x - 1 for x in sched if x != i])
+    for k in range(len(descs)):
+        if k not in iters and len(descs) > 1:
+            yield mk_ilv_case(descs[:k] + descs[k + 1:], [x if x < k else x - 1 for x in iters], sched)
+        for small in shrink({"lines": ["tbl " + encode(descs[k])], "desc": descs[k], "meta": {}}):
+            yield mk_ilv_case(descs[:k] + [small["desc"]] + descs[k + 1:], iters, sched)
+
+
 def shrink(case):
+    if "donor" in case:
+        yield from _shrink_obj(case)
+        return
+    if "descs" in case:
+        yield from _shrink_ilv(case)
+        return
     desc = case.get("desc")
     if desc is None:
         return
@@ -1006,6 +1275,32 @@ def tags(case, replies):
     yield kind
     rep = replies[0]
     yield "reply:" + (rep.split()[0] + (":" + rep.split()[1] if rep.startswith("err") else ""))
+    if "donor" in case:
+        yield "fmt_obj:" + ("made-directly" if case["via"] else ("of-printed-table" if case["pf"] else "of-fresh-table"))
+        d2 = case["desc2"]
+        nf, nl = effective_limits(d2)
+        if case["second"].get("limits") is None and nf is not None and nl is not None and nf != nl:
+            yield "fmt_obj:asymmetric-limits-inherited"
+            try:
+                if spec_body(d2, visible_columns(d2))[1] is not None:
+                    yield "fmt_obj:asymmetric-limits-apply"
+            except Exception:
+                pass
+        return
+    if "descs" in case:
+        yield "interleaved:tables=%d" % len(set(case["iters"]))
+        if len(set(case["iters"])) < len(case["iters"]):
+            yield "interleaved:same-table-twice"
+        try:
+            n = 0
+            for d in case["descs"]:
+                body, skipped = spec_body(d, visible_columns(d))
+                n += (skipped is not None) or (None in body)
+            if n >= 2:
+                yield "interleaved:service-lines-in-two-tables"
+        except Exception:
+            pass
+        return
     desc = case.get("desc")
     if desc is None or not rep.startswith("ok "):
         return
@@ -1034,31 +1329,43 @@ def tags(case, replies):
 
 
 RULE = ("tables: 1-4 fields (one of them an enum in 40%), 0-12 records of mixed types with repeated neighbours, 1-4 "
-        "columns with repeats, fixed/ranged/zero/default widths, hidden columns, break-by, all enum modifiers, "
+        "columns with repeats, fixed/ranged/zero/default widths, hidden columns, break-by, all enum modifiers with "
+        "known/unknown/None values and values equal to a key or to each other but printed differently (1/True/1.0), "
         "multi-line titles, long headers/footers, limits 0-4 in the format and/or the `limits` argument, decorated "
-        "format strings; field-less tables; malformed formats/fields/records; fit_to_width/resize_chunks_list "
+        "format strings; field-less tables; malformed formats/fields/records; tables built with fmt_obj= (format "
+        "of another fresh/printed table or PPTableFormat.make, mostly asymmetric limits, other records); 2-4 line "
+        "iterators over 1-3 tables (also two over one table) advanced in a random or zip-like interleaving, each "
+        "judged against its own table; fit_to_width/resize_chunks_list "
         "called directly (diagnostic lines). non-trivial = a table with at least one record or a rejected one; "
         "distinct by protocol line")
 TRUSTED = ["str() of int/float/bool/None (the float text and its exact ratio travel as data)",
            "str.isspace() of the running Python (whitespace set generated into Gen/C12.lean)"]
 ASSUMPTIONS = ["cell values contain no line break; at least one visible column (both out of the property's domain)",
-               "values of an enum column are int/str/None: the enum caches are keyed by Python equality, so 1/True/1.0 "
-               "in one enum column share one cached cell text (not modelled; reported as an observation)",
+               "whether a value equal to an enum key but of another type (True for key 1) is a known value is not said "
+               "by the property: the oracle accepts both names; the model follows the code (dict lookup: known)",
                "widths in format strings use ASCII digits (int() also accepts other Unicode decimal digits)"]
 
 LEVEL_TEXT = ("Kernel-checked for all tables of the model (any records, columns, widths, limits, titles, enum types): "
-              "fit_to_width/resize_chunks_list give exactly the asked width and only pad or cut-and-dot (fit_exact, "
-              "resize_exact); every printed line has length sum(widths)+ncols+1 (rectangular); title and record "
-              "lines carry '|' under every '+' of the border, framed lines start and end with '|' (separators); the "
-              "characters between two separators are the fitted text of that record's own field (cell_content); "
-              "negotiated widths lie within min/max in every reachable state (width_bounds) and are, on the first "
-              "printing, wide enough for every visible cell and the title up to max, so a value that fits max is never "
-              "cut (full_when_fits); title cells are the field's own title lines (title_content); every record appears in "
-              "order, break lines only directly before a record; with limits exactly first/last lines plus one "
-              "skipped line whose number is the count of hidden records (>= 1) and adds up to the total (limits). "
-              "Model = code rests on the differential run (all rendered lines compared exactly).")
+              "fit_to_width/resize_chunks_list give exactly the asked width and only pad or cut-and-dot; resize is the "
+              "resize_chunks_list of the CHText model of C08 (fit_exact, resize_exact, blanks_are_blanks); every printed "
+              "line has length sum(widths)+ncols+1 (rectangular); title and record lines carry '|' under every '+' of "
+              "the border, framed lines start and end with '|' (separators); the characters between two separators are "
+              "the fitted text of that record's own field / of the field's own title line (cell_content, cell_default, "
+              "title_content); negotiated widths lie within min/max in every reachable state (width_bounds) and are on "
+              "the first printing wide enough for every visible cell and the title up to max (full_when_fits); every "
+              "record appears in order, break lines only directly before a record; with limits exactly first/last "
+              "lines plus one skipped line whose number is the count of hidden records (>= 1) and adds up to the "
+              "total (limits); printing has no memory: a second printing prints the same and changes nothing "
+              "(print_twice), interleaved line iterators over several tables each yield their own table's lines "
+              "(interleaved); a table built with fmt_obj= from another table's format and the same records prints the "
+              "same, both limits included, and limits=/skip_columns= act as given (fmt_obj_same, ctor_options, "
+              "widths_faithful). Model = code rests on the differential run (all rendered lines compared exactly, also "
+              "per iterator and for fmt_obj tables).")
 LEVEL_NOTE = ("Trusted: Lean kernel, translator (constants of ak/ppobj.py regenerated on each run: dots, border marks, "
-              "default widths, texts), adapter/wire format in harness/c12.py, sampled correspondence. Colours are not "
-              "modelled (C08-C10). The theorem on limits assumes natural-number limits; negative limits are modelled "
-              "(Python slicing) and tied but not covered by C12.limits.")
-TECHNIQUE = "Lean 4 theorems over an executable model of the table printer + constant translator + differential run"
+              "default widths, texts; C08's constants for the CHText chunk operations), adapter/wire format in "
+              "harness/c12.py, sampled correspondence. Colours are not modelled (all chunks plain: no_color=True; "
+              "C08-C10 cover colours). C12.limits assumes natural-number limits; negative limits are modelled (Python "
+              "slicing) and tied but not covered. Tie only: enhanced formats (value paths) are not modelled. The generator laziness of gen_ch_lines is "
+              "modelled as 'all work at the first next()', which the interleaved tie validates.")
+TECHNIQUE = ("Lean 4 theorems over an executable model of the table printer built on the CHText model + constant "
+             "translator + differential run (single tables, fmt_obj tables, interleaved iterators)")
